@@ -376,6 +376,7 @@ func c07ReconnectScenario(p c07RecParams) *explore.Scenario {
 				connects.Add(1)
 			}
 		}
+		c.HandleFunc(client.CONNECTED, func(conn *client.Conn, line *client.Line) { vx.Observe("ev", "CONNECTED") })
 		c.HandleFunc(client.DISCONNECTED, func(conn *client.Conn, line *client.Line) {
 			vx.Observe("ev", "DISCONNECTED")
 			if connects.Peek() >= p.Cycles {
@@ -481,6 +482,9 @@ func c07ReconnectScenario(p c07RecParams) *explore.Scenario {
 		}
 		if n := count(ev, "DISCONNECTED"); n != connects {
 			bad("disconnected-count", fmt.Sprintf("%d DISCONNECTED events for %d established connections", n, connects))
+		}
+		if n := count(ev, "CONNECTED"); (p.Welcome == "same" || p.Welcome == "changed") && n != connects {
+			bad("fresh-connection-not-welcomed", fmt.Sprintf("every connection was welcomed with 001 and stayed up for ten minutes, but CONNECTED was delivered %d times for %d connections", n, connects))
 		}
 		for _, r := range ev {
 			if strings.HasPrefix(r, "check ") {
